@@ -25,6 +25,7 @@ type Job struct {
 	TransHi   int        `json:"trans_hi"`
 	Fuel      int        `json:"fuel"`
 	Histories [][]string `json:"histories,omitempty"`
+	LoadOnly  bool       `json:"load_only,omitempty"`
 }
 
 type Out struct {
